@@ -362,15 +362,12 @@ PT_HOOKS = dict(TL_HOOKS, linked=_h_linked,
                 lower=lambda interp, st, a: _Val(_z3.Function("str_lower", _S, _S)(a[0].t), "str"))
 _DECL = f"(tl_has(types, s, {_TN}) or tl_pend(types, s, {_TN}))"
 # (a name listed again without a parent at the end of the list is re-registered as a child of object: the later declaration wins)
-_PARENT_NAME = (f"(implies(not tl_pend(types, s, {_TN}), {{v}}.parent != None and fresh({{v}}.parent) and {{v}}.parent.name == tl_type(types, s, {_TN})) and "
+_PARENT_NAME = (f"(implies(not tl_pend(types, s, {_TN}), {{v}}.parent != None and {{v}}.parent.name == tl_type(types, s, {_TN})) and "
                 f"implies(tl_pend(types, s, {_TN}), {{v}}.parent is {_OBJ}))")
-# NOT DISCHARGED (kept for the record, not registered): the two phases translate and most of the ~140 obligations are proved — all
-# of the first loop, the establishment of most relink invariants — but the preservation of the relink-loop invariants (heap update of
-# `parent` on a snapshot of the dictionary's values while the dictionary grows through setdefault) stayed `unknown` in z3 and cvc5
-# within minutes per obligation, and verdicts flipped with small changes of the hypotheses.  parse_types therefore remains covered by
-# the bounded stand-ins above (c06-forests: all type forests up to 5 names in every declaration order).
-CONTRACTS_NOT_DISCHARGED = {}
-CONTRACTS_NOT_DISCHARGED["lisp_parsers.domain_parser:DomainParser.parse_types"] = dict(
+# (A first formulation of the relink-loop invariants in terms of the current state only stayed `unknown`; the one below states what was
+#  true when the relink loop was entered — `at_loop_entry(...)` — and three facts about how the loop changes that: the dictionary only
+#  grows, parents are replaced only by objects of the same name, visited snapshot objects are linked.)
+CONTRACTS["lisp_parsers.domain_parser:DomainParser.parse_types"] = dict(
     prop="C06", shards=8,
     params={"self": ("ref", "DomainParser"), "types": ("seq", "str")},
     locals={"pddl_types": ("ref", "dict_PDDLType"), "same_types_objects": ("seq", "str"), "parent_type": ("ref", "PDDLType")},
@@ -405,14 +402,19 @@ CONTRACTS_NOT_DISCHARGED["lisp_parsers.domain_parser:DomainParser.parse_types"] 
             modifies=["dict_PDDLType.keys[pddl_types]", "dict_PDDLType.map[pddl_types]", "PDDLType.name", "PDDLType.parent"]),
         1: dict(invariants=[
             "fresh(pddl_types)",
-            # the snapshot objects stay registered under their own names; registered objects carry the name they are registered under
-            "forall_str(lambda s: implies(s in pddl_types, pddl_types[s].name == s and fresh(pddl_types[s])))",
-            "forall_int(lambda j: _seq[j].name in pddl_types and pddl_types[_seq[j].name] is _seq[j] and fresh(_seq[j]) and "
-            f"(tl_has(types, _seq[j].name, {_TN}) or tl_pend(types, _seq[j].name, {_TN})), 0, len(_seq))",
-            # declared names stay registered; the name of every parent is the declared one
-            f"forall_str(lambda s: implies({_DECL}, s in pddl_types and fresh(pddl_types[s]) and " + _PARENT_NAME.format(v="pddl_types[s]") + "))",
-            # every declared name's object is in the snapshot; the snapshot objects visited so far are linked
-            f"forall_str(lambda s: implies({_DECL}, exists_int(lambda j: _seq[j] is pddl_types[s], 0, len(_seq))))",
+            # facts about the dictionary as it was when the relink loop was entered (they do not mention the current state):
+            # every declared name is registered there, under its own name, with a parent of the declared name; every entry is in the snapshot
+            f"forall_str(lambda s: implies({_DECL}, at_loop_entry(s in pddl_types and fresh(pddl_types[s]) and pddl_types[s].name == s and " + _PARENT_NAME.format(v="pddl_types[s]") + ")))",
+            "forall_str(lambda s: implies(at_loop_entry(s in pddl_types), exists_int(lambda j: _seq[j] is at_loop_entry(pddl_types[s]), 0, len(_seq))))",
+            "forall_int(lambda j: at_loop_entry(fresh(_seq[j])), 0, len(_seq))",
+            # the dictionary only grows: entries present at loop entry stay what they were
+            "forall_str(lambda s: implies(at_loop_entry(s in pddl_types), s in pddl_types and pddl_types[s] is at_loop_entry(pddl_types[s])))",
+            # registered objects carry the name they are registered under
+            "forall_str(lambda s: implies(s in pddl_types, pddl_types[s].name == s and pddl_types[s] != None))",
+            # relinking replaces a parent only by an object of the same name
+            "forall_ref(lambda x: (x.parent == None) == at_loop_entry(x.parent == None) and implies(x.parent != None, x.parent.name == at_loop_entry(x.parent.name)) "
+            "and implies(at_loop_entry(x.parent != None and x.parent.name == 'object'), x.parent is at_loop_entry(x.parent)), 'PDDLType')",
+            # the snapshot objects visited so far are linked
             "forall_int(lambda j: linked(_seq[j], pddl_types), 0, _i)",
             f"{_OBJ}.name == old({_OBJ}.name)", f"{_OBJ}.parent is old({_OBJ}.parent)"],
             modifies=["dict_PDDLType.keys[pddl_types]", "dict_PDDLType.map[pddl_types]", "PDDLType.parent"])},
